@@ -1,4 +1,5 @@
 import RxnModel.Proofs.Savepoint
+import RxnModel.Props.C10
 /-!
 # C14 — savepoints are self-contained and restore the checkpointed job state
 
@@ -305,6 +306,41 @@ theorem artifact_ok_restores (fs w : FS) (snap : JobSnap)
       obtain ⟨c, hf, _⟩ := h5 u hu
       simp [hf]
 
+/-! ## timers across a savepoint restore
+
+The pending timers of an operator live in its DKV (timer keys), so they are part of the operator image that
+`savepoint_roundtrip` shows to be restored unchanged. `view` is what a reopened DKV holds of timer keys as a function of
+the image it reads (C08: the reopened state is a function of the checkpoint's files — a parameter here, not proved in
+C14); `hview` says that for the ORIGINAL image this is the timer DB the operator had at its `Checkpoint` call (C08's
+restore statement). The conclusion is C10's `restore_pending_partial` for the registry rebuilt from the RESTORED image:
+it has exactly the timers pending at the checkpoint (a pending timer is still pending, a fired one is not) and refines
+the timer specification from there on, for every cache size. (`_partial` as in C10: timers not before 1970, D51.) -/
+theorem savepoint_restores_pending_timers_partial (fs fs1 w : FS) (jobURI : URI) (snap : JobSnap)
+    (hc : createArtifact .byId fs jobURI snap = (fs1, true))
+    (hj : read fs (.work jobURI) = some (.job snap))
+    (hw : ∀ p, p.inSp snap.id = true → read w p = read fs1 p)
+    (o : OpCkpt) (ho : o ∈ snap.ops) (view : Image → Timers.DB)
+    (kgc start stop maxCache maxCache' : Nat) (ids ids' : List String) (hss : start ≤ stop) (hstop : stop ≤ 65536)
+    (before after : List Timers.ROp)
+    (hv1 : ∀ op ∈ before, op.valid kgc start stop) (hv2 : ∀ op ∈ after, op.valid kgc start stop)
+    (hview : ∀ img, openDB fs o = some img →
+      view img = ((Timers.Registry.new (Timers.Store.new [] kgc start stop maxCache) ids).run before).1.store.db) :
+    ∃ w' img', loadFromSavepoint .byId w snap.id = (w', some snap) ∧ openDB w' o = some img' ∧
+      let specCkpt := ((Timers.Spec.new ids).run before).1
+      let restored := Timers.Registry.new (Timers.Store.new (view img') kgc start stop maxCache') ids'
+      let specRestored : Timers.Spec := ⟨specCkpt.pending, Wm.Ups.init ids', Wm.regInit⟩
+      Timers.Rel restored specRestored ∧
+      Timers.OutputsAgree (restored.run after).2 (specRestored.run after).2 ∧
+      Timers.Rel (restored.run after).1 (specRestored.run after).1 := by
+  obtain ⟨w', hload, himg⟩ := savepoint_roundtrip fs fs1 w jobURI snap hc hj hw
+  obtain ⟨heq, hsome⟩ := himg o ho
+  cases hi : openDB fs o with
+  | none => rw [hi] at hsome; simp at hsome
+  | some img =>
+    refine ⟨w', img, hload, by rw [heq, hi], ?_⟩
+    rw [hview img hi]
+    exact C10.restore_pending_partial kgc start stop maxCache maxCache' ids ids' hss hstop before after hv1 hv2
+
 /-! ## creation is not atomic (D53, repaired by beb71d2)
 
 `artifact_complete` and `savepoint_roundtrip` above are about a creation that sees ONE storage value. The real
@@ -508,6 +544,14 @@ theorem savepoint_lost_to_cleanup_counterexample :
     (createArtifact .byId d53FS (jobURI 1) d53Snap).2 = true ∧
     (createArtifactS .byId .writeRead d53FS (jobURI 1) d53Snap d65Sched).2 = false ∧
     read (createArtifactS .byId .writeRead d53FS (jobURI 1) d53Snap d65Sched).1 (.spJob 1) = none := by decide
+
+/-- with `job.savepoint` written from memory (fixes/D65.diff) the schedule of the counterexample yields the savepoint -/
+theorem d65_repair_witness :
+    (createArtifactSJ .byId .writeRead .fromBytes d53FS (jobURI 1) d53Snap d65Sched).2 = true ∧
+    read (createArtifactSJ .byId .writeRead .fromBytes d53FS (jobURI 1) d53Snap d65Sched).1 (.spJob 1)
+      = some (.job d53Snap) ∧
+    read (createArtifactSJ .byId .writeRead .fromBytes d53FS (jobURI 1) d53Snap d65Sched).1 (.work (jobURI 1)) = none ∧
+    (createArtifactSJ .byId .writeRead .copyFile d53FS (jobURI 1) d53Snap d65Sched).2 = false := by decide
 
 /-- **restart_ids_fresh** (D49 repaired): a job started from a savepoint never hands out a checkpoint id again that
 is the savepoint's or that of a job snapshot file still in its file store (checkpoints written after the savepoint
